@@ -367,7 +367,7 @@ class NPdelay(metaclass=NumpyFallback):
 def delays_work(P, item):
     from sigpyproc import params
     fn = rebind(params.compute_dmdelays, np=NPdelay)
-    K = Fraction(params.DM_CONSTANT_LK)
+    K = Fraction(4.148808e3)      # the documented dispersion constant (property text), not whatever the library currently uses
     st = z3.Solver()
     st.set("timeout", 60000)
     nch = 3
@@ -402,12 +402,32 @@ def delays_work(P, item):
         s.add(*pre)
         P.stats.queries += 1
         r = s.check(c)
+        for seed in (1, 2, 3):
+            if r != z3.unknown:
+                break
+            # nonlinear real arithmetic with rounding: z3's answer time varies a lot with its random choices
+            s = z3.Solver()
+            s.set("timeout", 120000)
+            s.set("random_seed", seed)
+            s.add(*pre)
+            P.stats.queries += 1
+            r = s.check(c)
         if r == z3.unsat:
             P.obligation(f"compute_dmdelays/{name}", "holds", symbolic=True)
         elif r == z3.unknown:
             P.inconclusive_(f"compute_dmdelays/{name}: solver unknown")
         else:
             m = s.model()
+            # prefer a witness in a physically ordinary range and, for the rounding obligation, one that is off by more than
+            # a whole sample (the replay cannot judge float32 evaluations that sit on a rounding boundary)
+            s2 = z3.Solver()
+            s2.set("timeout", 30000)
+            s2.add(*pre)
+            s2.add(*[z3.And(u >= z3.RealVal("1/100000000"), u <= z3.RealVal("1/10000")) for u in us], ur >= z3.RealVal("1/100000000"), ur <= z3.RealVal("1/10000"),
+                   ts >= z3.RealVal("1/100000"), ts <= 1, dm >= -3000, dm <= 3000)
+            strong = z3.Or([z3.Or(z3.ToReal(a) - e > 1, e - z3.ToReal(a) > 1) for a, e in zip(de, exact)]) if name.startswith("within half") else c
+            if s2.check(strong) == z3.sat:
+                m = s2.model()
 
             def fv(t):
                 v = m.eval(t, model_completion=True)
